@@ -65,7 +65,7 @@ SHAPES = {
 
 
 def cases(tier, seed):
-    reps = 2 if tier == "quick" else 60
+    reps = 2 if tier == "quick" else 1200
     out = []
     for fn, shp in SHAPES.items():
         for si in range(len(shp)):
@@ -79,7 +79,7 @@ def cases(tier, seed):
     for r in range(reps * 2):
         out.append({"t": "out", "rep": r, "seed": seed})
     out.append({"t": "errors", "seed": seed})
-    nsc = 6 if tier == "quick" else 60
+    nsc = 6 if tier == "quick" else 600
     for kind in gen.KINDS:
         for r in range(nsc // 3):
             out.append({"t": "scenario", "kind": kind, "rep": r, "seed": seed})
